@@ -218,6 +218,10 @@ def facts(o):
          "nargs": len(args), "lastellipsis": bool(args) and args[-1] is ...,
          "origin": getattr(org, "__name__", "") if org is not None else "",
          "originsubtuple": inspect.isclass(org) and org is not tuple and issubclass(org, tuple),
+         # for the dispatch tables (implementation-shaped layer)
+         "unresolvable": o in (object, typing.Any, typing.Callable, cabc.Callable, ...) or org is cabc.Callable or org is type or o is type,
+         "hasannotations": plain and bool(getattr(o, "__annotations__", False)),
+         "subscripted": org is not None and bool(args),
          "istypeddict": typing.is_typeddict(o), "hasfields": plain and hasattr(o, "_fields"),
          "userclass": plain and getattr(o, "__module__", "") == "verif_catalogue" and not any(sub(o, b) for b in STDLIB_EXACT if b is not type(None)),
          "stdlibexact": plain and o in STDLIB_EXACT,
@@ -342,7 +346,27 @@ def run(ctx: Ctx) -> Outcome:
                     inst = hasattr(a, "_fields")
             events.append({"ev": "instantiable", "isclass": bool(ok_cls), "instantiable": bool(inst), "rightkind": bool(ok_cls and issubclass(a, r))})
             meta.append({"p": "origin-instantiable", "obj": n, "exc": exc or ""})
+    # implementation-shaped layer: which routine class the two factories choose for each catalogue object
+    import typelib
+    ndisp = 0
+    for n in names:
+        o, grp = objs[n]
+        if isinstance(o, typing.ForwardRef) or type(o) is typing.TypeVar or typing.get_origin(o) in (typing.Final, typing.ClassVar) \
+                or isinstance(o, typing.TypeAliasType) or hasattr(o, "__supertype__"):
+            continue                       # the tables see unwrapped types only
+        try:
+            cu, cm = type(typelib.unmarshaller(o)), type(typelib.marshaller(o))
+        except Exception:
+            continue
+        # every name the routine class goes by in its module (DateMarshaller = ToISOTimeMarshaller, ...)
+        import typelib.unmarshals.api as uapi, typelib.unmarshals.routines as ur, typelib.marshals.api as mapi, typelib.marshals.routines as mr
+        us = sorted({k.replace("Unmarshaller", "") for mod in (ur, uapi) for k, v in vars(mod).items() if v is cu or typing.get_origin(v) is cu}) or [cu.__name__]
+        ms = sorted({k.replace("Marshaller", "") for mod in (mr, mapi) for k, v in vars(mod).items() if v is cm or typing.get_origin(v) is cm}) or [cm.__name__]
+        events.append({"ev": "dispatch", "f": facts(o), "us": us, "ms": ms})
+        meta.append({"p": "dispatch", "obj": n, "exc": ""})
+        ndisp += 1
     tres, rejects = tlc.validate_trace("Dispatch_Trace", "Dispatch_Trace.cfg", events, timeout=3600)
+    drift = [{"obj": meta[p["drift"] - 1]["obj"], "what": p["what"]} for p in tres.printed if isinstance(p, dict) and "drift" in p]
     viol = []
     for r in rejects:
         e, m = events[r["rej"] - 1], meta[r["rej"] - 1]
@@ -362,7 +386,8 @@ def run(ctx: Ctx) -> Outcome:
                    "parameterised in both spellings, user classes of every structured flavour and subclasses, unions/Optional in all "
                    "spellings, Literal, Final, ClassVar, TypeVar, Callable, Any, ForwardRef, NewType/alias chains)",
            "samples": [dict(meta[100], event=events[100])]}
-    return Outcome(level="other", coverage=cov, violations=viol,
+    cov["dispatch_rows_checked_on_objects"] = ndisp
+    return Outcome(level="other", coverage=cov, violations=viol, impl_drift=drift,
                    assumptions=["predicates of the _safe_issubclass family are asserted on plain classes only (the dispatch tables pass them "
                                 "unwrapped types); answers marked '?' in Dispatch.tla are outside the asserted domain"])
 
